@@ -179,7 +179,10 @@ def step_rules(ctx, m, owners):
             continue
         a, t = aps[0], tvp[0]
         if owner == "Env":
-            ok = fld(a.args[0], rec_f) and fld(a.args[1], snap_f) and not sq.cfg.in_loop(a.b)
+            # (the record appended is the snapshot field, or the very value `self.<book>.level_2_data()` the snapshot is refreshed from)
+            l2calls = [c for c in sq.calls("level_2_data") if c.args and fld(c.args[0], obj)]
+            live_val = a.args[1][0] == "call" and a.args[1][4] == "level_2_data" and a.args[1][2] and fld(a.args[1][2][0], obj) and bool(l2calls) and all(after(c) for c in l2calls)
+            ok = fld(a.args[0], rec_f) and (fld(a.args[1], snap_f) or live_val) and not sq.cfg.in_loop(a.b)
             ctx.check(ok, "step", tag + "|append-args", a.loc(), "append_record(self.%s <- &self.%s)" % (rec_f, snap_f), "append_record called as %s" % a.text())
             v = t.args[1]
             ok = v[0] == "call" and v[4] == "get_trade_vol" and fld(v[2][0], obj) and not sq.cfg.in_loop(t.b)
@@ -227,7 +230,14 @@ def step_rules(ctx, m, owners):
                 ctx.check(len(gv) == 1 and after(gv[0]), "step", tag + "|tradevol-after", gv[0].loc() if gv else ctx.loc(f), "the counters are read after the processing loop")
         # snapshot refreshed before recording in the same step (C10 checks its source)
         sw = [w for w in sq.writes(field=snap_f) if w.root[0] == "param"]
-        ctx.check(len(sw) == 1 and sq.body.dominates(sw[0].b, a.b) and (sw[0].b != a.b or True), "step", tag + "|fresh-snapshot", a.loc(), "the recorded snapshot is the one refreshed in this step")
+        reads_ = [c for c in sq.calls("level_2_data") if c.args and fld(c.args[0], obj)]
+        ctx.check(bool(reads_) and all(after(c) for c in reads_), "step", tag + "|fresh-read", a.loc(), "the live level-2 data that is recorded is read after the processing loop",
+                  "the level-2 data that is recorded is read from the book before the batch is processed (the entry is stale)")
+        # (or the record is that refreshed value itself: both the append and the snapshot write take `level_2_data()` of the live
+        #  book computed after the loop - then their order does not matter)
+        same_value = owner == "Env" and len(sw) == 1 and a.args[1][0] == "call" and a.args[1][4] == "level_2_data" and same(sw[0].val, a.args[1]) and \
+            all(after(c) for c in sq.calls("level_2_data") if c.args and fld(c.args[0], obj))
+        ctx.check(len(sw) == 1 and (sq.body.dominates(sw[0].b, a.b) or same_value), "step", tag + "|fresh-snapshot", a.loc(), "the recorded snapshot is the one refreshed in this step")
         # no other writers of the record vectors
         for g in ctx.prog.find(crate="bourse_de", adt=owner):
             if g.impl_trait is not None or g.name in ("step", "new") or not g.pub:
